@@ -417,12 +417,14 @@ var formatInfo = map[string]fmtInfo{
 // fileNames: every spelling of an output file name the importers select by (extension tables of sbom/spdx, extension AND base-name
 // tables of sbom/cdx; both compare case-insensitively); index 0 is formatInfo's.
 var fileNames = map[string][]string{
-	"spdx23-json":      {"o.spdx.json", "Result.SPDX.JSON", "a b.spdx.json"},
-	"spdx23-yaml":      {"o.spdx.yml", "O.Spdx.Yml"},
-	"spdx23-tag-value": {"o.spdx", "sbom.SPDX"},
-	"cdx-json":         {"o.cdx.json", "bom.json", "BOM.JSON", "x.CDX.json"},
-	"cdx-xml":          {"o.cdx.xml", "bom.xml", "Bom.Xml"},
+	"spdx23-json":      {"o.spdx.json", "Result.SPDX.JSON", "a b.spdx.json", "scan-v1.2.spdx.json", "host.example.com-2026-09-30.spdx.json", ".spdx.json"},
+	"spdx23-yaml":      {"o.spdx.yml", "O.Spdx.Yml", "scan-v1.2.spdx.yml", "host.example.com.spdx.yml", "result.spdx.yaml"},
+	"spdx23-tag-value": {"o.spdx", "sbom.SPDX", "v1.2.spdx"},
+	"cdx-json":         {"o.cdx.json", "bom.json", "BOM.JSON", "x.CDX.json", "scan-v1.2.cdx.json", "host.example.com-2026-09-30.cdx.json", "result.cyclonedx.json"},
+	"cdx-xml":          {"o.cdx.xml", "bom.xml", "Bom.Xml", "x.y.z.cdx.xml"},
 }
+// (result.spdx.yaml is the name binary/cli/cli_test.go gives an spdx23-yaml output, result.cyclonedx.json the one the help text of the -o flag
+// gives a cdx-json output: names the project itself writes SBOMs to)
 
 func (c tcase) fileName() string {
 	ns := fileNames[c.format]
@@ -719,7 +721,7 @@ func run(tmp string, c tcase) string {
 		info, err := os.Stat(p)
 		must(err)
 		if !ex.FileRequired(simplefileapi.New(name, info)) {
-			return "purls=- extra=0 st=not-required mut=" + mut
+			return "purls=- extra=0 st=not-required mut=" + mut + " name=" + hs(name)
 		}
 		fh, err := os.Open(p)
 		must(err)
@@ -1174,6 +1176,9 @@ func main() {
 		{mkp("nopurl", "1", false), mkp("b", "2", true)},
 		{mkp("a", "1", true), mkp("nover", "", true), mkp("c", "3", true)},
 		{mkp("x", "1", false), mkp("y", "", true), mkp("z", "9", true), mkp("w", "", true), mkp("v", "5", true)},
+		// a purl the exporters write but packageurl-go's per-type rules refuse on the way back: an R package without a version (r/renvlock entries
+		// may lack one)
+		{pk{name: "ggplot2", version: "", locs: []string{"renv.lock"}, hasPurl: true, typ: "cran", pname: "ggplot2"}, mkp("a", "1", true)},
 	} {
 		emitAll("fixed", inv)
 	}
